@@ -118,14 +118,14 @@ var c40Menus = map[string][]c40OpSpec{
 		{op: "attach", weight: 4, path: c40MediaPaths},
 		{op: "write", weight: 4, argMax: 20},
 		{op: "detach", weight: 3},
-		{op: "safeconf", weight: 1},
+		{op: "safeconf", weight: 2},
 		{op: "pmlist", weight: 1},
 	},
 	"fakerdr": {
 		{op: "attach", weight: 5, path: c40MediaPaths},
 		{op: "detach", weight: 4},
 		{op: "describe", weight: 2, path: c40MediaPaths},
-		{op: "safeconf", weight: 1},
+		{op: "safeconf", weight: 2},
 		{op: "pmlist", weight: 1},
 	},
 	"rtsppub": {
